@@ -59,6 +59,18 @@ fn main() {
             props::c10::run(ctx);
             ctx.finish(props::c10::RULE, props::c10::ASSUME)
         }
+        "C11" => {
+            props::c11::run(ctx);
+            ctx.finish(props::c11::RULE, props::c11::ASSUME)
+        }
+        "C12" => {
+            props::c12::run(ctx);
+            ctx.finish(props::c12::RULE, props::c12::ASSUME)
+        }
+        "C13" => {
+            props::c13::run(ctx);
+            ctx.finish(props::c13::RULE, props::c13::ASSUME)
+        }
         "C15" => {
             props::c15::run(ctx);
             ctx.finish(props::c15::RULE, props::c15::ASSUME)
